@@ -136,6 +136,14 @@ class ParseStream(runner.Stream):
                 fields.append(fld("timeout", ("int", 0, ("ref", "standby"), False, []), ("dflt", ("ref", "standby"))))
             one(simple_module("M", [("vr", "standby", vty, vlit), ("def", "Mode", None, enum), ("def", "Config", None, seq(fields))]),
                 "enum_item_vs_value")
+        # corpus (no finding): two value assignments whose names differ only in the case of a letter
+        for n1, n2 in (("maxLen", "maxlen"), ("aB", "ab")):
+            for order in ((n1, 4, n2, 8), (n2, 8, n1, 4)):
+                items = [("vr", order[0], INT, ("i", order[1])), ("vr", order[2], INT, ("i", order[3])),
+                         ("def", "Blob", None, ("oct", ("range", 1, ("ref", n2), False))),
+                         ("def", "Span", None, ("int", ("ref", n1), ("ref", n2), False, [])),
+                         ("def", "Cfg", None, seq([fld("d", INT, ("dflt", ("ref", n2))), fld("e", INT, ("dflt", ("ref", n1)))]))]
+                one(simple_module("M", items), "names_differ_in_case")
         # regression: a separator as first token of a string literal (it was dropped)
         for toks in ([",", "a"], [":"], ["(", "x", ")"], [".", "."], ["'", "a"], ["=", "b", "c"], ["'"], ["{", "}"],
                      [";", ";", "x"], ["[", "0", "]", "z"]):
